@@ -11,6 +11,11 @@ mod error;
 #[cfg(feature = "async")]
 mod future;
 mod signal;
+#[cfg(kanal_verif)]
+pub mod verif;
+#[cfg(kanal_verif)]
+#[allow(unused_imports)]
+use crate::verif::{core, std};
 
 pub use error::*;
 #[cfg(feature = "async")]
@@ -131,6 +136,12 @@ impl<T> fmt::Debug for AsyncSender<T> {
 
 macro_rules! shared_impl {
     () => {
+        /// Unlocked snapshot of the channel state for an external test harness.
+        #[cfg(all(kanal_verif, not(feature = "std-mutex")))]
+        #[doc(hidden)]
+        pub fn verif_peek(&self, id: impl FnMut(&T) -> u64) -> crate::verif::Peek {
+            crate::verif::peek_internal(&self.internal, id)
+        }
         /// Returns whether the channel is bounded or not.
         ///
         /// # Examples
@@ -748,6 +759,8 @@ impl<T> Sender<T> {
                 // Safety: data failed to move, sender should drop it if it
                 // needs to
                 if needs_drop::<T>() {
+                    #[cfg(kanal_verif)]
+                    crate::verif::owner_slot(data.as_ptr(), 1);
                     unsafe { data.assume_init_drop() }
                 }
                 return Err(SendError::Closed);
@@ -808,6 +821,8 @@ impl<T> Sender<T> {
                     // Safety: data failed to move, sender should drop it if it
                     // needs to
                     if needs_drop::<T>() {
+                        #[cfg(kanal_verif)]
+                        crate::verif::owner_slot(data.as_ptr(), 1);
                         unsafe { data.assume_init_drop() }
                     }
                     return Err(SendErrorTimeout::Closed);
@@ -823,6 +838,8 @@ impl<T> Sender<T> {
                     // Safety: data failed to move, sender should drop it if it
                     // needs to
                     if needs_drop::<T>() {
+                        #[cfg(kanal_verif)]
+                        crate::verif::owner_slot(data.as_ptr(), 1);
                         unsafe { data.assume_init_drop() }
                     }
                     return Err(SendErrorTimeout::Closed);
@@ -1146,6 +1163,8 @@ impl<T> Receiver<T> {
             // Safety: it's safe to assume init as data is forgotten on another
             // side
             if size_of::<T>() > size_of::<*mut T>() {
+                #[cfg(kanal_verif)]
+                crate::verif::owner_slot(ret.as_ptr(), 0);
                 Ok(unsafe { ret.assume_init() })
             } else {
                 Ok(unsafe { sig.assume_init() })
@@ -1202,6 +1221,8 @@ impl<T> Receiver<T> {
             // Safety: it's safe to assume init as data is forgotten on another
             // side
             if size_of::<T>() > size_of::<*mut T>() {
+                #[cfg(kanal_verif)]
+                crate::verif::owner_slot(ret.as_ptr(), 0);
                 Ok(unsafe { ret.assume_init() })
             } else {
                 Ok(unsafe { sig.assume_init() })
